@@ -161,6 +161,11 @@ def run(ctx, widen=False):
     # sizes), so that SEVERAL constraints per routine — some settled at compile time, some depending on the inputs — are the norm
     pipeline.run_stream(ctx, __name__, range(base + 50000, base + 50000 + n // 2),
                         extra={"leaf_inputs": [2, 3, 3, 4], "size_thresholds": (0.05, 0.2, 0.4), "p_fault_size": 0.3, "max_children": 2, "max_depth": 2})
+    # third family: wide wiring — up to four children with two or three input ports each, listed against the data flow as a rule,
+    # so that a constrained port is often fed by a sibling that is listed (and, if the ordering were wrong, compiled) AFTER its consumer
+    pipeline.run_stream(ctx, __name__, range(base + 80000, base + 80000 + n),
+                        extra={"leaf_inputs": [2, 3, 3], "size_thresholds": (0.05, 0.25, 0.45), "p_fault_size": 0.35, "max_children": 4, "max_depth": 2,
+                               "p_shuffle_children": 1.0, "p_passthrough": 0.0, "leaf_outputs": [1, 2, 2, 3], "p_inner_wire": 0.9})
     corpus(ctx)
 
 
